@@ -183,4 +183,4 @@ def oracle_deep(case, rec):
 
 SUBS = [Sub('deep', oracle_deep, enumerate=deep_cases, shards=8),
         Sub('multi_knee', oracle, strategy=cases, budget={'quick': 6400, 'thorough': 96000}, examples=examples),
-        Sub('long', oracle, strategy=long_cases, budget={'quick': 160, 'thorough': 1600})]
+        Sub('long', oracle, strategy=long_cases, budget={'quick': 320, 'thorough': 3200})]
